@@ -293,7 +293,7 @@ class SendCheck:
         mismatch = []
         if mm is not None:
             for r in rows:
-                if r[0] == 'Ref': continue
+                if r[0] in ('Ref', 'Foreign'): continue
                 exp = mm[(f'{r[0]} {r[1]}', r[2], r[3], r[4])]
                 if exp != (r[5], r[6]): mismatch.append((r, exp))
         if bad:
